@@ -292,8 +292,16 @@ def r5(ctx, rep, ci):
         # _send_request binds that parameter as the in-flight future
         h = method(ctx, ci, "_send_request")
         p2 = h.params[2] if len(h.params) > 2 else None
-        binds = any(isinstance(n, ast.Assign) and any(a == "response_future" for a, _, _ in self_store(n)) and isinstance(n.value, ast.Name) and n.value.id == p2
-                    for n in ast.walk(h.node))
+        binds, nchecked = p2 is not None, 0
+        attr = ast.Attribute(value=ast.Name(id="self", ctx=ast.Load()), attr="response_future", ctx=ast.Load())
+        for hp in protocol_paths(ctx, h):
+            if hp.end == "raise" or not any(ev.kind == "call" and "send" in tags(ev) for ev in hp.events):
+                continue
+            nchecked += 1
+            hr = Replay(ctx.prog, h, hp)
+            if hr.sym.lin(attr) != hr.sym_at(0).lin(ast.Name(id=p2, ctx=ast.Load())):
+                binds = False
+        binds = binds and nchecked > 0
         if not binds:
             ok, why = False, "_send_request does not bind the future it is given as self.response_future"
     rep.check(ok, "C06.R5", "own-future:%s" % ci.name, fn.loc(), "%s.send_request waits on and returns the future of this activation" % ci.name,
